@@ -43,7 +43,6 @@ contract("JobConfiguration.check_job_estimated_run_minutes", file=F,
 define("GROUPS", ["c"], "c._submission_groups")
 define("TOO_LONG", ["c", "i"], """(not isnone(CJL(c)[i].estimated_run_minutes) and exists(g, range(len(GROUPS(c))),
     GROUPS(c)[g].name == val(CJL(c)[i].submission_group) and 60 * val(CJL(c)[i].estimated_run_minutes) > GROUPS(c)[g].submitter_params.wall_time_s))""")
-contract("JobConfiguration.submission_groups", file=F, inline=True, params=[("self", "Ref[JobConfiguration]")], returns="List[Ref[SubmissionGroup]]")
 contract("JobConfiguration.check_job_runtimes", file=F,
          params=[("self", "Ref[JobConfiguration]")],
          locals={"wall_times": "Dict[Name,int]"},
